@@ -8,6 +8,7 @@ import (
 	"runtime"
 	"runtime/debug"
 	"sort"
+	"strconv"
 	"strings"
 	"testing"
 	"testing/synctest"
@@ -72,11 +73,18 @@ func Execute(t *testing.T, sc *Scenario, replay []Decision) *RunResult {
 				}
 			}
 		}()
-		runBubble(t, func() {
+		run := runBubble
+		if realScale() > 0 { // real-time race mode: no bubble at all
+			run = func(_ *testing.T, f func()) { f() }
+		}
+		run(t, func() {
 			h := NewHistory()
 			h.SetStart(time.Now())
+			free := os.Getenv("VERIF_UNCONTROLLED") != ""
+			h.Off = free
 			s := NewSim(sc.Seed, sc.Sched, h)
-			s.Free = os.Getenv("VERIF_UNCONTROLLED") != ""
+			s.Free = free
+			s.RealScale = realScale()
 			if replay != nil {
 				s.replay = replay
 				if len(replay) == 0 {
@@ -101,6 +109,10 @@ func Execute(t *testing.T, sc *Scenario, replay []Decision) *RunResult {
 			w.Teardown()
 			// let every sleeping harness goroutine and every repo timer run out,
 			// so that only genuinely stuck goroutines remain at the end
+			if s.RealScale > 0 {
+				time.Sleep(100 * time.Millisecond)
+				return
+			}
 			for i := 0; i < 4; i++ {
 				time.Sleep(time.Hour)
 				synctest.Wait()
@@ -210,4 +222,11 @@ func blockedStacks() string {
 		}
 	}
 	return strings.Join(keep, "\n\n")
+}
+
+// realScale is the divisor for all durations in real-time race mode
+// (VERIF_REALTIME=<n>), 0 when simulating inside a bubble.
+func realScale() int {
+	n, _ := strconv.Atoi(os.Getenv("VERIF_REALTIME"))
+	return n
 }
